@@ -6,6 +6,8 @@ pub mod c06;
 pub mod c07;
 pub mod c10;
 pub mod c11;
+pub mod c12;
+pub mod c13;
 pub mod c18;
 pub mod c20;
 pub mod c32;
@@ -53,6 +55,9 @@ pub fn run(prop: &str, args: &Args) -> i32 {
         "C07" => c07::run(args),
         "C10" => c10::run(args),
         "C11" => c11::run(args),
+        "C12" => c12::run(args),
+        "C13" => c13::run_c13(args),
+        "C14" => c13::run_c14(args),
         "C18" => c18::run(args),
         "C20" => c20::run_c20(args),
         "C21" => c20::run_c21(args),
